@@ -366,6 +366,14 @@ def r9_executor_routing(ctx):
         return ip.explore(fi, env=env)
 
     alive = lambda: {W1: Obj("P", {"exitcode": None}, name="p1"), W2: Obj("P", {"exitcode": None}, name="p2")}
+    wa = repo.func("cascade.executor.runner.entrypoint.worker_address")
+    addr = {}
+    for w_ in (W1, W2):
+        ps_ = [q for q in Interp(repo).explore(wa, args={"workerId": w_}) if q.exit[0] == "return"]
+        addr[w_.name] = vkey(ps_[0].exit[1]) if len(ps_) == 1 else None
+    if None in addr.values() or addr[W1.name] == addr[W2.name]:
+        ctx.violation("C02.R9", wa.qual, loc(wa), "worker addresses distinct", f"worker_address maps the two workers of a host to {addr}: each worker needs its own address")
+        return
     ts = Obj(M + "TaskSequence", {"worker": W2, "tasks": ["t"], "publish": set()}, name="TS")
     for state, workers in (("alive", alive()), ("exited", {W1: Obj("P", {"exitcode": None}, name="p1"), W2: Obj("P", {"exitcode": 1}, name="p2")}),
                            ("never started", {W1: Obj("P", {"exitcode": None}, name="p1"), W2: None})):
@@ -376,7 +384,7 @@ def r9_executor_routing(ctx):
             rep = [e for e in p.effects if is_call(e, qual="cascade.executor.executor.Executor.to_controller") and isinstance(e.data["args"][0], Obj)
                    and e.data["args"][0].cls == M + "ExecutorFailure"]
             if state == "alive":
-                good = len(fw) == 1 and "W_`H1`_w1" in vkey(fw[0].data["args"][0]) and not rep
+                good = len(fw) == 1 and vkey(fw[0].data["args"][0]) == addr[W2.name] and not rep
                 exp = "handed to exactly that worker"
             else:
                 good = not fw and len(rep) == 1
